@@ -5,6 +5,15 @@ checks = {
  "C01": dict(technique="runtime monitoring: generated programs executed under real /bin/bash, stdout/exit/stderr judged by an independent reference interpreter",
    text="Differential runtime monitoring: enumerated operator/statement/loop families plus a seeded random sweep of scalar programs are transpiled by the real library, executed by the real bash in an empty sandbox and compared byte-for-byte with an independent reference interpreter; non-termination is decided on logical shell steps.",
    note="Trusted: the RefLang reference interpreter (Go meaning + README deviations), /bin/bash 5.2. Bounded program size/nesting; shell-neutral strings.", ref="§3 C01"),
+ "C02": dict(technique="runtime monitoring: generated multi-function programs executed under real /bin/bash, judged by an independent reference interpreter with frames",
+   text="Differential runtime monitoring of call semantics: name-reuse, global-write, arity, return-register and simultaneous-assignment families plus a random sweep over a tiny identifier pool; every program runs under real bash and is compared with the reference interpreter (frames, by-value scalars, by-reference slices).",
+   note="Trusted: RefLang interpreter, /bin/bash 5.2. Programs mixing a variable read with a call that writes it in one statement are discarded (unspecified in Go).", ref="§3 C02"),
+ "C03": dict(technique="runtime monitoring: generated slice/string programs executed under real /bin/bash, judged by an independent reference interpreter",
+   text="Differential runtime monitoring of slice and string operations: all substring index pairs up to length 12, growth/gap-fill for old lengths 0..12, aliasing chains, copy for all length pairs, range forms, plus a random sweep with arbitrary int index expressions.",
+   note="Trusted: RefLang interpreter (slices as shared growable vectors), /bin/bash 5.2. Undefined cases (out-of-range, resize while ranging, copy into longer dst) discarded.", ref="§3 C03"),
+ "C04": dict(technique="runtime monitoring: trace-line sequence of effectful functions in executed scripts compared with the reference evaluation order",
+   text="Trace monitoring: numbered effectful calls are placed at every operand position x statement kind x context; the emitted script's trace (order and multiplicity of the calls) must equal the reference interpreter's left-to-right, exactly-once, eager trace.",
+   note="Trusted: RefLang interpreter's evaluation order, /bin/bash 5.2. Switch tags and range operands never effectful (excluded).", ref="§3 C04"),
 }
 not_built = {}
 props = [json.loads(l) for l in open('/verif/properties.jsonl')]
